@@ -3613,6 +3613,12 @@ func restartSubtree(ctx context.Context, node *restartNode, parent *PID, tree *t
 		runtime.Gosched()
 	}
 
+	// Force the dispatch state back to Idle while the actor is still
+	// quiescent: once init has run the actor accepts and schedules messages
+	// again, and resetting a state that a worker has since taken would let a
+	// second worker start a concurrent turn.
+	pid.schedState.reset()
+
 	pid.resetBehavior()
 	if err := pid.init(ctx); err != nil {
 		return err
@@ -3646,7 +3652,6 @@ func restartSubtree(ctx context.Context, node *restartNode, parent *PID, tree *t
 		return fmt.Errorf("actor=(%s) failed to restart: %w", pid.Name(), err)
 	}
 
-	pid.schedState.reset()
 	pid.setState(suspendedState, false)
 	pid.startPassivation()
 
